@@ -379,16 +379,35 @@ def compare(els, exp, obs, rt):
     par = parents(els)
     bad = []
     used_other_key = 0
-    for i, (e, x, o) in enumerate(zip(els, exp["obs"], obs), 1):
+    for i, (e, x0, o) in enumerate(zip(els, exp["obs"], obs), 1):
+        # object sharing: an object placed at several positions has one expectation per position
+        # (alt); what the one object holds must be what the fold gives one of its positions (free
+        # if one of them lies behind an unresolved key).  An object placed once has one.
+        alts = x0.get("alt") or [x0]
+        if len(alts) > 1 and any(a["free"] for a in alts):
+            continue
+        res = [_compare_one(els, par, i, e, dict(a, late=x0.get("late", ())), o) for a in alts]
+        best = min(res, key=lambda r: len(r[0]))
+        bad.extend(best[0] if len(alts) == 1 else
+                   [(k, what + "-at-every-position", pk, j, want, got) for (k, what, pk, j, want, got) in best[0]])
+        used_other_key += best[1]
+    return _compare_runtime(els, exp, rt, bad, used_other_key)
+
+
+def _compare_one(els, par, i, e, x, o):
+    """One object against one expectation: (mismatches, other unresolved key named)."""
+    bad = []
+    used_other_key = 0
+    if True:
         k = e["k"]
         pk = els[par[i] - 1]["k"] if i in par else "root"
         if not o or o.get("skip"):
-            continue
+            return bad, used_other_key
         if o.get("raised"):
             bad.append((k, "observation-raised-" + o["raised"], pk, i, None, o.get("msg")))
-            continue
+            return bad, used_other_key
         if x["free"]:
-            continue
+            return bad, used_other_key
         if k in ("store", "ucfs"):
             want = prune(dec(x["ctx"]))
             if not _same(o["ctx"], want):
@@ -432,6 +451,10 @@ def compare(els, exp, obs, rt):
                             used_other_key += 1
                         else:
                             bad.append((k, "unresolved-key-not-named", pk, i, sorted(x.get("un", ())), o["msg"]))
+    return bad, used_other_key
+
+
+def _compare_runtime(els, exp, rt, bad, used_other_key):
     if rt is not None:
         has_ucfs = any(e["k"] == "ucfs" for e in els)
         if isinstance(rt, str):
